@@ -12,6 +12,24 @@ def judge(case, g):
         return (KNOWN, v[1])
     return v
 
+KNOWN_PRUNE = "c12:pruned-types-not-principal"
+
+# hand-made cases on the pruning route (well-typed witnesses): one witness w shared between the branch that runs and
+# the branch that pruning hides; b decides the branch, w is only constrained (to 2) by the hidden one
+def hand_cases():
+    dag = [["witness", 0, 0], ["unit", 0, 0], ["pair", 1, 2], ["witness", 0, 0], ["unit", 0, 0], ["comp", 4, 5], ["drop", 6, 0], ["unit", 0, 0],
+           ["pair", 4, 8], ["unit", 0, 0], ["take", 10, 0], ["unit", 0, 0], ["drop", 12, 0], ["case", 11, 13], ["comp", 9, 14], ["drop", 15, 0],
+           ["case", 7, 16], ["comp", 3, 17]]
+    two = ["+", ["1"], ["1"]]
+    out = []
+    for b in ("L", "R"):
+        for w in ("L", "R"):
+            cand = [[] for _ in dag]
+            cand[0] = [two, [b, ["u"]]]
+            cand[3] = [two, [w, ["u"]]]
+            out.append({"dag": dag, "route": "construct_pruned", "arrows": [], "typed": True, "cand": cand, "hand": "witness shared with a hidden branch"})
+    return out
+
 def judge0(case, g):
     o = g["outcome"]
     if o == "harness":
@@ -27,6 +45,9 @@ def judge0(case, g):
         return (fp, "route %s returned a program whose witness of type %s sits on a node with target %s" % (
             case["route"], bad["ty"], bad["target"]))
     for k in ("redecode", "exec", "prune"):
+        if k == "redecode" and ins[k] != "ok" and ins.get("principal") is False and case["route"].endswith("_pruned"):
+            # recorded finding (see C08): the pruned program keeps a type constraint of a hidden branch
+            return (KNOWN_PRUNE, "program produced by %s does not decode from its own serialisation (%s): its arrows are not its own principal ones" % (case["route"], ins[k]))
         if ins[k].startswith("panic") or (k == "redecode" and ins[k] != "ok"):
             return ("c12:" + k, "program produced by %s: %s %s" % (case["route"], k, ins[k]))
     # the types of the produced program's witnesses are the inferred ones
@@ -38,7 +59,7 @@ def judge0(case, g):
 
 def body(c):
     r = c.tlc_design("WitnessFlow", "WitnessFlow.cfg", heap="8g", timeout=1200, coverage=True)
-    cases = tla_to_json_lines(r.prints, "CASE")
+    cases = tla_to_json_lines(r.prints, "CASE") + hand_cases()
     cpath = os.path.join(c.work, "cases.ndjson")
     with open(cpath, "w") as f:
         for x in cases:
